@@ -91,6 +91,17 @@ CallSpec noise_call(RunCtx& ctx, Rng& rng, std::string& what)
 {
     CallSpec c;
     int k = rng.below(10);
+    if (rng.chance(0.12)) {
+        // another client parses a single block, possibly one that is abandoned half-way
+        size_t ti = rng.below((uint32_t)block_texts().size());
+        c.bytes = block_texts()[ti];
+        c.entry = E_PART;
+        c.part = block_parts()[ti];
+        c.backend = B_BUILDER;
+        what = "block part=" + std::to_string(c.part);
+        c.ceiling = default_ceiling(c.bytes.size());
+        return c;
+    }
     if (k < 4 && !corpus().empty()) {
         auto& m = corpus()[rng.below((uint32_t)corpus().size())];
         c.bytes = m.second;
